@@ -107,8 +107,11 @@ def build_cases(ctx: lib.Ctx, prop: str):
     for c in G.known_finding_cases(ctx.rng, ctx.n(12, 60)):
         c['stream'] = 'known-class'
         cases.append(c)
-    cases.extend(G.instr_sweep(ctx.rng, ctx.thorough))
-    n = ctx.n(900, 14000)
+    sweep = G.instr_sweep(ctx.rng, ctx.thorough)
+    if not ctx.thorough:   # the quick tier runs a seeded 55% sample of the sweep
+        sweep = [c for c in sweep if ctx.rng.random() < 0.55]
+    cases.extend(sweep)
+    n = ctx.n(700, 14000)
     max_size = ctx.n(12, 40)
     for k in range(n):
         strict = ctx.rng.random() < 0.5
@@ -198,7 +201,7 @@ def tc_fail(ctx, cases, bad_t, label='programs'):
 
 def collect_contracts(ctx: lib.Ctx):
     cases, metas = [], []
-    for _ in range(ctx.n(120, 2500)):
+    for _ in range(ctx.n(90, 2500)):
         c = G.gen_contract(ctx.rng, ctx.rng.choice([3, 8, ctx.n(12, 40)]))
         c['stream'] = 'contract'
         old = signal.signal(signal.SIGALRM, _alarm)
@@ -249,7 +252,7 @@ Definition ref_sess_eqb (a b : list (outcome * list value)) : bool :=
 def sessions(ctx: lib.Ctx, prop: str):
     """REPL sessions: (A) py_session, (B) ref_session, per cell outcome + the session stack and `protected` afterwards."""
     cases, metas = [], []
-    for _ in range(ctx.n(150, 2500)):
+    for _ in range(ctx.n(110, 2500)):
         c = G.gen_session(ctx.rng, ctx.rng.choice([3, 6, ctx.n(10, 30)]))
         c['stream'] = 'session'
         old = signal.signal(signal.SIGALRM, _alarm)
